@@ -281,6 +281,32 @@ def r_static(ctx: Ctx, model):
                            nontrivial_key=("pragma", m.name, txt))
 
 
+def r_nest_static(ctx: Ctx, model):
+    """every call of a @with_connection function from inside another @with_connection function hands the open cursor on
+    (keyword `cursor=`), on every path and for every argument combination - otherwise the callee opens, commits and closes
+    its own connection in the middle of the caller's transaction"""
+    ctx.rule("S-nest: inside a @with_connection function every call to a @with_connection function passes cursor=<the open cursor>")
+    deco = {fi.name: fi for fi in model.all_functions()
+            if fi.qualname.startswith("pygaps.parsing.sqlite.") and any(d.split(".")[-1] == "with_connection" for d in fi.decorators)}
+    ctx.floor("@with_connection functions", len(deco), 15)
+    n = 0
+    for fi in deco.values():
+        for node in ast.walk(fi.node):
+            if isinstance(node, ast.Call):
+                callee = node.func.id if isinstance(node.func, ast.Name) else node.func.attr if isinstance(node.func, ast.Attribute) else None
+                if callee in deco:
+                    n += 1
+                    kw = {k.arg: ast.unparse(k.value) for k in node.keywords if k.arg}
+                    star = any(k.arg is None for k in node.keywords)
+                    ok = kw.get("cursor") in ("cursor", "kwargs['cursor']", 'kwargs["cursor"]') or (star and "cursor" not in kw)
+                    ctx.ob(ok, Finding("C09.S-nest", fi.where, f"{fi.short}|{callee}|no-cursor",
+                                       f"line {node.lineno}: {fi.short} calls {callee}(...) without cursor=cursor: the nested operation runs and "
+                                       "commits on its own connection while the caller's transaction is still open (a later failure of the "
+                                       "caller cannot undo it)"),
+                           nontrivial_key=("nest", fi.qualname, callee, node.lineno))
+    ctx.floor("nested @with_connection call sites", n, 6)
+
+
 def _explore_task(task):
     root, opname, vi = task
     model, mach = setup_machine(root, inject=True)
@@ -318,6 +344,7 @@ def run(ctx: Ctx):
     ops = operations(model)
     ctx.floor("public write operations", len(ops), 14)
     r_static(ctx, model)
+    r_nest_static(ctx, model)
     npaths = 0
     nstat = 0
     positions = set()
